@@ -350,7 +350,7 @@ func (server *Server) responseMessage(conn io.Writer, msg *Message) error {
 	if msg != nil {
 		bytes, err = msg.RESPBytes()
 	} else {
-		bytes, err = NewErrorMessage(ErrSystem).Bytes()
+		bytes, err = NewErrorMessage(ErrSystem).RESPBytes()
 	}
 	if err != nil {
 		return err
